@@ -452,7 +452,20 @@ def string_harnesses() -> List[Harness]:
     return out
 
 
+def vm_harnesses() -> List[Harness]:
+    MBx = "(crate::vm::MB as usize)"
+    b = f"        let in_p: usize = kani::any();\n        kani::assume(in_p < {MBx});\n        let vm = VM::new();\n"
+    b += A("vm.new.flags_F000", "vm.arch.flag == 0xF000")
+    b += A("vm.new.cs_FFFF", "vm.arch.cs == 0xFFFF")
+    b += A("vm.new.other_registers_zero", "vm.arch.ax == 0 && vm.arch.bx == 0 && vm.arch.cx == 0 && vm.arch.dx == 0 && vm.arch.sp == 0 && vm.arch.bp == 0 "
+           "&& vm.arch.si == 0 && vm.arch.di == 0 && vm.arch.ip == 0 && vm.arch.ds == 0 && vm.arch.ss == 0 && vm.arch.es == 0")
+    b += A("vm.new.memory_zero", "vm.mem[in_p] == 0")
+    h = Harness("l0_vm_new", ["C19", "C09"], b, ["vm.new.flags_F000", "vm.new.cs_FFFF", "vm.new.other_registers_zero", "vm.new.memory_zero"], ["VM::new"], klass="M")
+    return [h]
+
+
 L0_HARNESSES: Dict[str, List[Harness]] = {
+    "src/lib/vm.rs": vm_harnesses(),
     "src/lib/instructions/string.rs": string_harnesses(),
     "src/lib/instructions/arithmetic.rs": incdec_harnesses(),
     "src/lib/util/flag_util.rs": flag_util_harnesses(),
